@@ -85,9 +85,12 @@ Theorem C05_for_bound_refuted :
 Proof. vm_compute. repeat split. Qed.
 Print Assumptions C05_for_bound_refuted.
 
-(* B3: `local a = 0; local a, b = 1, a`: the a of the second initialiser resolves to the new a *)
+(* B3: `local a = 0; local a, b = 1, a`: the a of the second initialiser resolves to the new a.  The TRAVERSAL side of
+   this class is repaired (fixes/C07-multi-local-order.diff: references / rename / diagnostics are right now, no tag
+   CB3 any more); the position resolver still picks the new a: for go-to-definition the occurrence is an instance of
+   class B1 (tag CB1: a use of a name of the statement inside its initialiser list) *)
 Theorem C05_multi_local_refuted :
-  has_deviation CB3 (chunk_of src_multi_local) = true /\
+  has_deviation CB1 (chunk_of src_multi_local) = true /\
   run_define [(a_lua, src_multi_local)] a_lua 1 16 = ALocs [(a_lua, mk_loc 2 6 2 7)] /\
   option_map s_bind (spec_occ [(a_lua, src_multi_local)] a_lua 1 16) = Some (BLocal (mk_loc 1 6 1 7)).
 Proof. vm_compute. repeat split. Qed.
